@@ -288,6 +288,11 @@ static ValModel genVal(vf::Rng& r) {
   if (vHasSig(m.kind)) m.sig = genU64(r);
   if (vHasInfos(m.kind)) {
     unsigned n = vMultiInfos(m.kind) ? 1 + r.below(6) : 1;
+    if (vMultiInfos(m.kind) && r.chance(1, 40)) {   // output counts around the boundaries of one- and two-byte length prefixes
+      static const unsigned edge[] = {7, 15, 16, 17, 63, 64, 127, 128, 129, 254, 255, 256, 257, 300, 511, 512, 513, 1000};
+      n = edge[r.below(sizeof edge / sizeof edge[0])];
+      if (r.chance(1, 60)) { static const unsigned big[] = {65535, 65536, 65537}; n = big[r.below(3)]; }
+    }
     for (unsigned i = 0; i < n; ++i) m.infos.push_back(genInfo(r, m.kind != VK::ExistingInput));
   }
   if (vHasList(m.kind)) m.strings = genList(r, 6);
